@@ -14,7 +14,7 @@ func init() {
 	register(&propertyDef{
 		id:    "C20",
 		title: "the engine API classifies results and resolves files consistently",
-		rules: []ruleFunc{c20R1, c20R2, c20R3, c20R4, c20R5, c20R6, c20R7, c20R8, c20R9, c20R10},
+		rules: []ruleFunc{c20R1, c20R2, c20R3, c20R4, c20R5, c20R6, c20R7, c20R8, c20R9, c20R10, c20R11},
 		decided: "engineWorkflow.Run flags the result with OutputSchema()[id].Error() of the very id Execute returned, and every error return carries the flag true (R1); infer.OutputSchema derives the error flag from `outputID == \"error\"` only when no explicit schema was given and returns an explicit schema unchanged (R2); " +
 			"the exit-code table of the command-line tool: parse error 1, run error 3, error output 2, otherwise 0 (R3); file access in the engine is confined to loadfile.LoadContext, the readFile built-in and cmd/*, and relative names are joined with the absolute context directory (R4); " +
 			"RunWorkflow = Parse then Run on the same context and file name, the default workflow file name is workflow.yaml (R5). The declared output schema object itself reaches infer.OutputSchema (R7); parsing/preparing keeps no state between calls (R8 = C10.R5).",
@@ -714,4 +714,34 @@ func c20R9(c *Ctx) {
 		})
 	}
 	c.minCount(rule, "calls of StepWorkflowPaths that feed the file cache", m, 1)
+}
+
+// C20.R11 no root-less file cache enters a merge.
+func c20R11(c *Ctx) {
+	const rule = "C20.R11"
+	c.explain("C20.R11 loadfile.MergeFileCaches is never called with an empty argument list: the merge of nothing is a cache without a root directory, and the root check of a later merge (`rootDir != \"\" && rootDir != fc.RootDir()`) accepts such a cache in first position only — whether a tree of sub-workflows loads then depends on the order in which the file map is iterated. 'Nothing referenced' is reported as nil, which every merge skips")
+	merge := c.FnOpt("loadfile.MergeFileCaches")
+	if merge == nil {
+		c.unresolved("loadfile.MergeFileCaches")
+		return
+	}
+	n := 0
+	cnt := map[string]int{}
+	for _, fn := range c.RepoFns {
+		if c.excluded(fn) {
+			continue
+		}
+		eachInstr(fn, func(r instrRef) {
+			cc := callCommon(r.I)
+			if cc == nil || cc.StaticCallee() != merge || len(cc.Args) == 0 {
+				return
+			}
+			n++
+			cnt[c.fnName(fn)]++
+			key := fmt.Sprintf("merge@%s#%d", c.fnName(fn), cnt[c.fnName(fn)])
+			_, empty := cc.Args[0].(*ssa.Const)
+			c.verdict(!empty, rule, key, c.instrPos(r.I), "the merge is given caches", "MergeFileCaches() without arguments builds a cache that has no root directory: merged behind a cache of the context it is refused (`file caches have different root directory`), merged in front of it it is accepted — the verdict depends on map order")
+		})
+	}
+	c.minCount(rule, "calls of MergeFileCaches", n, 2)
 }
